@@ -110,12 +110,17 @@ func isLRULoad(v ssa.Value, field string) bool {
 func entryOfElement(v ssa.Value) ssa.Value {
 	// through an accessor of the package: func entryOf(e *list.Element) *Entry
 	// { return e.Value.(*Entry) }
-	if call, isCall := v.(*ssa.Call); isCall && len(call.Common().Args) == 1 {
-		if g := call.Common().StaticCallee(); g != nil && g.Blocks != nil && len(g.Params) == 1 && g.Pkg != nil && strings.HasSuffix(g.Pkg.Pkg.Path(), "/internal/cache") {
+	// (or a step that also records the access: func (c) touch(e, now) *Entry)
+	if call, isCall := v.(*ssa.Call); isCall {
+		if g := call.Common().StaticCallee(); g != nil && g.Blocks != nil && g.Pkg != nil && strings.HasSuffix(g.Pkg.Pkg.Path(), "/internal/cache") {
 			rets := ssau.ReturnsOf(g)
 			if len(rets) == 1 && len(rets[0].Results) == 1 {
-				if base := entryOfElement(rets[0].Results[0]); base != nil && base == ssa.Value(g.Params[0]) {
-					return call.Common().Args[0]
+				if base := entryOfElement(ssau.ResultValue(rets[0], 0)); base != nil {
+					for i, q := range g.Params {
+						if base == ssa.Value(q) && i < len(call.Common().Args) {
+							return call.Common().Args[i]
+						}
+					}
 				}
 			}
 		}
@@ -1096,7 +1101,7 @@ func c12Expiry(env *lruEnv, all []*ssa.Function) {
 			continue
 		}
 		key := "cache.(*LRUCache).Get#exit:" + exitName(get, ret) + "/expiry"
-		reach := ssau.ReachableAvoidingEdges(get, ret.Block(), cut)
+		reach := ret.Block() == get.Blocks[0] || reachAvoidBB(get.Blocks[0], ret.Block(), cut, nil)
 		d := "a hit can be returned without passing the false side of (ttl > 0 && since(CreatedAt) > ttl)"
 		if why != "" {
 			d += ": " + why
@@ -1307,6 +1312,49 @@ func c12Stats(env *lruEnv, all []*ssa.Function) {
 					paired = true
 				}
 			})
+			if !paired {
+				// counted by the caller on the word of the step that removes:
+				// if _, removed := c.evictOldest(); removed { evictions++ }
+				for _, d := range ssau.ControlDeps(fn)[st.Block()] {
+					iff := d.If()
+					if iff == nil || !d.Then {
+						continue
+					}
+					ex, ok := iff.Cond.(*ssa.Extract)
+					if !ok {
+						continue
+					}
+					call, ok := ex.Tuple.(*ssa.Call)
+					if !ok {
+						continue
+					}
+					g := call.Common().StaticCallee()
+					if g == nil || !env.isLRUMethod(g) {
+						continue
+					}
+					exact, n := true, 0
+					for ret, m := range env.eng.Exits(g) {
+						if ex.Index >= len(ret.Results) {
+							exact = false
+							continue
+						}
+						n++
+						v := ssau.ResultValue(ret, ex.Index)
+						switch {
+						case ssau.IsConstBool(v, true):
+							exact = exact && m.Get("list.Remove").ExactlyOnce()
+						case ssau.IsConstBool(v, false):
+							exact = exact && m.Get("list.Remove") == pathev.Zero
+						default:
+							exact = false
+						}
+					}
+					// nothing else is removed between the step and the count
+					if exact && n > 0 && call.Block().Dominates(st.Block()) {
+						paired = true
+					}
+				}
+			}
 			r.Check(paired, "O-5", load.FuncKey(fn)+"#evictions++", c.P.Pos(st.Pos()), "counted exactly where an element is removed", "evictions++ is not tied to a removal on the same paths")
 		})
 	}
